@@ -1,5 +1,6 @@
 import GBProofs.Props.C03
 import GBProofs.CoulombGeneral
+import GBProofs.PointChargeBlock
 /-!
 # C03 — analytic anchor
 `CoulombGeneral.coulomb_general`: for two primitive Cartesian Gaussians of arbitrary angular momenta
@@ -9,3 +10,21 @@ Fubini and the Rys substitution are all formalised (`RysAnalytic.lean`, `Coulomb
 Together with `C03.vertical_table_eq_spec` and `C03.horizontal_table_eq_spec` (valid for any `F`, in
 particular `F = boys T`) this ties the recursion tables of the code to the integral.
 -/
+
+namespace GB.C03
+
+/-- **Block-level theorem.**  The whole code path of `PointChargeIntegral.construct_array_contraction`
+— vertical recursion on primitives, contraction, horizontal recursion, component selection, angular
+norms, the shell swap, the factor `-q` — with the true Boys function computes
+`-q ∫ φ_a(r) φ_b(r) / |r - C| d³r` for the contracted, primitive-normalised Cartesian functions, for all
+shells with positive exponents (any angular momenta, any number of primitives and segments). -/
+theorem point_charge_block_is_coulomb_integral (boysT : ℝ → ℕ → Tab ℝ)
+    (hboys : ∀ T n m, m < n → (boysT T n).get m = boys T m) (s t : Shell ℝ) (Cpt : ℕ → ℝ) (q : ℝ)
+    (ma ca mb cb : ℕ) (hs : ∀ k, k < s.nprim → 0 < s.exp! k) (ht : ∀ k, k < t.nprim → 0 < t.exp! k)
+    (ha : (s.comp! ca).1 + (s.comp! ca).2.1 + (s.comp! ca).2.2 ≤ s.l)
+    (hb : (t.comp! cb).1 + (t.comp! cb).2.1 + (t.comp! cb).2.2 ≤ t.l) :
+    (pointChargeBlock boysT s t Cpt q).get4 ma ca mb cb
+      = -q * ∫ r : E3, shellFnE s ma ca r * shellFnE t mb cb r / ‖r - toE3 Cpt‖ :=
+  pointChargeBlock_eq_integral boysT hboys s t Cpt q ma ca mb cb hs ht ha hb
+
+end GB.C03
